@@ -94,8 +94,8 @@ CHECKS = {
                   "list) and free running threads with a 1 microsecond switch interval, each run in a fresh process, every call compared with the same call alone",
         text="Kernel-checked (interleave_safe) for any number of threads, all programs and ALL schedules: if every thread follows the clear protocol on the graphs it owns, every query "
              "returns the value recomputed from the thread's own graph as it is at that moment and no section raises KeyError - the unlocked compute and the store 'after the cache may "
-             "have been cleared in the meantime' are harmless, and recycled ids between threads are harmless; interleave_stale_counterexample shows the result of a thread that queries "
-             "before clearing depends on the schedule. Real concurrent runs are replayed through the machine on every run (events must agree). The property itself (each call returns "
+             "have been cleared in the meantime' are harmless, and recycled ids between threads are harmless; (interleave_sequential) hence, without ill-formed steps, every thread's query results are exactly those of its program run alone; "
+             "interleave_stale_counterexample shows the result of a thread that queries before clearing depends on the schedule. Real concurrent runs are replayed through the machine on every run (events must agree). The property itself (each call returns "
              "what it returns alone, no foreign exception) is explored: quick ~20 scheduler runs (~10^6 yield points, ~10^5 thread switches) + ~20 free runs with 2-8 threads, thorough "
              "~500 + ~400; sequential-in-process and fresh-process references.",
         note="K3 abstraction as for C11; thread-private graphs (ownership) is an assumption of the theorem that the recorded runs are checked against (an op on a graph of another "
